@@ -3,6 +3,8 @@ package props
 import (
 	"bytes"
 	"fmt"
+	"os"
+	"path/filepath"
 	"testing"
 
 	astisub "github.com/asticode/go-astisub"
@@ -29,9 +31,26 @@ func checkC06(s ttxStream) string {
 	if m := diffTTX(exp, sub); m != "" {
 		return fmt.Sprintf("%s (options %+v, page %d/%d%d, serial %v)", m, o, s.Mag, s.Tens, s.Units, s.Serial)
 	}
+	first := canon(sub)
+	// the same stream through the file-level entry point (a file, not a byte slice)
+	if s.ViaFile {
+		dir, err := os.MkdirTemp("", "c06")
+		if err == nil {
+			defer os.RemoveAll(dir)
+			p := filepath.Join(dir, "stream.ts")
+			if os.WriteFile(p, b, 0o644) == nil {
+				fs, err := astisub.Open(astisub.Options{Filename: p, Teletext: o})
+				if err != nil {
+					return fmt.Sprintf("Open(stream.ts) failed on a stream ReadFromTeletext reads (options %+v): %v", o, err)
+				}
+				if canon(fs) != first {
+					return fmt.Sprintf("Open(stream.ts) and ReadFromTeletext disagree on the same stream (options %+v)\n--- ReadFromTeletext ---\n%s\n--- Open ---\n%s", o, clip(first, 500), clip(canon(fs), 500))
+				}
+			}
+		}
+	}
 	// what a stream denotes does not depend on what was read before in the same process: read other streams with
 	// other national options, then this one again
-	first := canon(sub)
 	for _, primer := range [][3]uint8{{1, 0, 0}, {0, 0, 1}} {
 		p := ttxStream{Mag: 3, Tens: 1, Units: 1, Instances: []ttxInstance{{PTS: 90000, C12: primer[0], C13: primer[1], C14: primer[2], Rows: []ttxRow{{Y: 2, Segs: []ttxSeg{{Text: "#$@[]{|}~"}}}}}}}
 		pb, _ := p.render()
